@@ -1,4 +1,4 @@
-\* quick liveness: 1 node, 2 entries, <=2 tenures, 1 outage, 1 restart
+\* quick liveness: 1 node, 2 entries, <=2 tenures (3 signals), 1 outage, 1 restart
 SPECIFICATION LiveSpec
 CONSTANTS
   Node = {n1}
@@ -7,7 +7,8 @@ CONSTANTS
   BatchSz = 2
   InCap = 0
   AsyncHWM = FALSE
-  MaxFlips = 2
+  SigCap = 2
+  MaxFlips = 3
   MaxLeaders = 1
   MaxRestarts = 1
   MaxSnaps = 1
@@ -20,6 +21,7 @@ CONSTANTS
   HWMAfterSendOK = TRUE
   PruneToHWMOnly = TRUE
   RewindCursor = TRUE
+  ParkedKeptUntilSent = TRUE
   RestartHWMBelowLowest = TRUE
   DropReapplied = TRUE
 PROPERTIES Live
